@@ -528,6 +528,8 @@ def main(argv=None):
         try:
             msg, rrec = replay_file(check_id, path)
         except HarnessError as e:
+            if "unknown part" in str(e):
+                continue  # stale regression input of a part that no longer exists: ignore (explicit --replay still reports it)
             harness.append(str(e))
             continue
         n_replayed += 1
